@@ -41,21 +41,45 @@ def r14_1(chk):
     ok_rets = all(norm(r.value) in (p, f"self({p})") for r in rets if r.value is not None)
     proxy_ret = any(r.value is not None and norm(r.value) == p for r in rets)
     chk.decide(ok_rets and proxy_ret, "R14.1", key(m, "_source_wrapped", "returns the same proxy"), m.loc(fn), "returns the proxy object it received", f"returns {[norm(r.value) for r in rets if r.value is not None]}: the source travels separately from the result, so completion order decides which identifier a result is written under")
-    # apply_to: identifier/data from the loop variable of as_completed
+    # apply_to: identifier/data from the value delivered by as_completed
     ap = m.func("_apply_to")
-    loops = [l for l in walk_no_nested(ap) if isinstance(l, ast.For) and isinstance(l.iter, ast.Call) and isinstance(l.iter.func, ast.Attribute) and l.iter.func.attr == "as_completed"]
-    if not loops:
-        raise AnalysisError("_apply_to: `for result in self.as_completed(...)` not found")
+    from ..defuse import derived_names
+
+    ac_calls = [c for c in walk_no_nested(ap) if isinstance(c, ast.Call) and isinstance(c.func, ast.Attribute) and c.func.attr == "as_completed"]
+    if not ac_calls:
+        raise AnalysisError("_apply_to: self.as_completed(...) not found")
+    # names holding the completed-results iterable
+    res_names = set()
+    for st in walk_no_nested(ap):
+        if isinstance(st, ast.Assign) and any(st.value is c or any(c is x for x in ast.walk(st.value)) for c in ac_calls):
+            for t in st.targets:
+                if isinstance(t, ast.Name):
+                    res_names.add(t.id)
+    loops = [l for l in walk_no_nested(ap) if isinstance(l, ast.For) and (any(c is x for c in ac_calls for x in ast.walk(l.iter)) or any(isinstance(x, ast.Name) and x.id in res_names for x in ast.walk(l.iter)))]
+    mains = [c for c in walk_no_nested(ap) if isinstance(c, ast.Call) and norm(c.func) == "self.main"]
+    if not loops or not mains:
+        raise AnalysisError("_apply_to: completion loop / self.main(...) call not found")
     loop = loops[0]
-    var = loop.target.id if isinstance(loop.target, ast.Name) else None
-    mains = [c for st in loop.body for c in ast.walk(st) if isinstance(c, ast.Call) and norm(c.func) == "self.main"]
-    if not mains or var is None:
-        raise AnalysisError("_apply_to: self.main(...) call in the completion loop not found")
+    # the loop variable(s) that come from the results: a plain name, or the element paired with results in a zip
+    direct = loop.iter in ac_calls or (isinstance(loop.iter, ast.Name) and loop.iter.id in res_names)
+    if direct and isinstance(loop.target, ast.Name):
+        var = loop.target.id
+    else:
+        var = None
+        if isinstance(loop.iter, ast.Call) and call_name(loop.iter) in ("zip", "enumerate") and isinstance(loop.target, ast.Tuple):
+            offset = 1 if call_name(loop.iter) == "enumerate" else 0
+            for i, a in enumerate(loop.iter.args):
+                if a in ac_calls or (isinstance(a, ast.Name) and a.id in res_names):
+                    el = loop.target.elts[i + offset] if call_name(loop.iter) == "zip" else loop.target.elts[1]
+                    if isinstance(el, ast.Name):
+                        var = el.id
+            chk.violation("R14.1", key(m, "_apply_to", f"results paired by position: {norm(loop.iter)[:80]}"), m.loc(loop), f"`for {norm(loop.target)} in {norm(loop.iter)[:80]}` pairs the completed results with something else by position: with parallel execution results arrive in completion order, so they are matched with the wrong partner")
     kws = {kw.arg: kw.value for kw in mains[0].keywords}
-    d = {var}
-    id_ok = "identifier" in kws and expr_derives(kws["identifier"], d) and any(isinstance(x, ast.Attribute) and x.attr == "source" and norm(x.value) == var for x in ast.walk(kws["identifier"]))
-    data_ok = "data" in kws and expr_derives(kws["data"], d)
-    chk.decide(id_ok, "R14.1", key(m, "_apply_to", "identifier from result.source"), m.loc(mains[0]), f"identifier = {norm(kws.get('identifier')) if 'identifier' in kws else None}", "the writer's identifier is not derived from the completed value's own source")
+    d = derived_names(ap, {var}) if var else set()
+    d = {x for x in d if x == var} | {var} if var else set()
+    id_ok = var is not None and "identifier" in kws and any(isinstance(x, ast.Attribute) and x.attr == "source" and norm(x.value) == var for x in ast.walk(kws["identifier"]))
+    data_ok = var is not None and "data" in kws and any(isinstance(x, ast.Name) and x.id == var for x in ast.walk(kws["data"]))
+    chk.decide(id_ok, "R14.1", key(m, "_apply_to", "identifier from result.source"), m.loc(mains[0]), f"identifier = {norm(kws.get('identifier')) if 'identifier' in kws else None}", f"the writer's identifier (`{norm(kws['identifier']) if 'identifier' in kws else None}`) is not derived from the completed value's own source: under out-of-order completion a result is written under another input's identifier")
     chk.decide(data_ok, "R14.1", key(m, "_apply_to", "data from result"), m.loc(mains[0]), f"data = {norm(kws.get('data')) if 'data' in kws else None}", "the written data is not derived from the completed value")
     # expected-zero: positional pairing
     n_pair = 0
@@ -219,7 +243,7 @@ def r14_5(chk):
             chk.violation("R14.5", k, m.loc(fn), "no self.data_store.write(...) call")
             continue
         if not ncs:
-            chk.violation("R14.5", k, m.loc(fn), "no isinstance(data, NotCompleted) branch: not-completed results are written as completed records")
+            chk.violation("R14.5", k, m.loc(fn), "the routing test is not `isinstance(data, NotCompleted)`: either not-completed results are written as completed records, or (with a truthiness test) empty but successful results are filed as not-completed")
             continue
         nc = ncs[0]
         body_calls = [c for st in nc.ast.body for c in ast.walk(st) if isinstance(c, ast.Call) and norm(c.func) == "self.data_store.write_not_completed"]
